@@ -259,6 +259,10 @@ func TestVerifC05(t *testing.T) {
 			}
 		case 8:
 			d = vPick(r, []string{"**.", "*.*.", "*.a*.", "*"}) + d
+		case 9: // literal text between two wildcards
+			d = "*." + vPick(r, []string{"staging", "mid", "x-y", "a.b", "s"}) + ".*." + d
+		case 10:
+			d = vPick(r, []string{"a*b*c.", "*-*-api.", "*x*", "v*.*-prod."}) + d
 		}
 		return vPick(r, schemes) + "://" + d + vPick(r, ports)
 	}
@@ -286,7 +290,32 @@ func TestVerifC05(t *testing.T) {
 		}
 		kind := "lookalike"
 		h := hostname
-		switch r.Intn(16) {
+		switch r.Intn(18) {
+		case 16, 17: // the literal text between the first and the last wildcard dropped or altered
+			first, last := strings.IndexByte(h, '*'), strings.LastIndexByte(h, '*')
+			if first >= 0 && last > first {
+				mid := h[first+1 : last]
+				switch r.Intn(5) {
+				case 0:
+					mid = ""
+				case 1:
+					mid = "."
+				case 2:
+					if len(mid) > 0 {
+						i := r.Intn(len(mid))
+						mid = mid[:i] + vPick(r, []string{"X", "", ".", "-"}) + mid[i+1:]
+					}
+				case 3:
+					mid = strings.ReplaceAll(mid, "*", "")
+					if len(mid) > 1 {
+						mid = mid[1:] + mid[:1]
+					}
+				default:
+					mid = vPick(r, []string{".production.", ".evil.", "z", ".."})
+				}
+				kind, h = "lookalike-middle", h[:first+1]+mid+h[last:]
+			}
+			h = inst(h)
 		case 0, 1, 2:
 			kind, h = "instance", inst(h)
 		case 3: // bare parent: drop one "*."
